@@ -12,7 +12,8 @@ import sys, json, itertools
 from . import common, schedx
 
 P = "C16"
-PRE = "(define g 0) (define h 0) (define lst (list 1 2)) (define (inc!) (set! g (+ g 1)))"
+PRE = ("(define g 0) (define h 0) (define lst (list 1 2)) (define (inc!) (set! g (+ g 1))) "
+       "(define (join-tail t) (thread-join! t)) (define (recv-tail r) (channel/recv r)) (define (lock-tail m) (lock-acquire! m))")
 
 
 def enc_list(xs):
@@ -55,6 +56,12 @@ def drivers():
     D.append(("mutex||mutex+gc", "(let* ((m (mutex)) (t1 (spawn-native-thread (lambda () (let ((gd (lock-acquire! m))) (#%gc-collect) (inc!) (lock-release! gd) 'a)))))"
               " (let ((gd (lock-acquire! m))) (inc!) (lock-release! gd)) (list (thread-join! t1) g))", {enc_list([sym("a"), i(2)])}, 2))
     D.append(("sleep||set", "(let* ((t1 (spawn-native-thread (lambda () (time/sleep-ms 1) (set! g 1) 'a)))) (set! h 1) (list (thread-join! t1) g h))", {enc_list([sym("a"), i(1), i(1)])}, 2))
+    # a blocking primitive called in tail position of a (natively compiled) top-level function
+    D.append(("join-in-tail-position||gc", "(let* ((t1 (spawn-native-thread (lambda () (#%gc-collect) (set! g 1) 'a)))) (list (join-tail t1) g))", {enc_list([sym("a"), i(1)])}, 2))
+    D.append(("recv-in-tail-position||gc+send", "(let* ((ch (channels/new)) (s (channels-sender ch)) (r (channels-receiver ch)) (t1 (spawn-native-thread (lambda () (#%gc-collect) (channel/send s 1) (set! g 1) 'a))))"
+              " (let ((x (recv-tail r))) (list x (thread-join! t1) g)))", {enc_list([i(1), sym("a"), i(1)])}, 2))
+    D.append(("lock-in-tail-position||lock+gc", "(let* ((m (mutex)) (t1 (spawn-native-thread (lambda () (let ((gd (lock-acquire! m))) (#%gc-collect) (inc!) (lock-release! gd) 'a)))))"
+              " (let ((gd (lock-tail m))) (inc!) (lock-release! gd)) (list (thread-join! t1) g))", {enc_list([sym("a"), i(2)])}, 2))
     # exit / start during a stop
     D.append(("exit||gc", "(let* ((t1 (spawn-native-thread (lambda () 'a)))) (#%gc-collect) (#%gc-collect) (list (thread-join! t1)))", {enc_list([sym("a")])}, 2))
     D.append(("exit||set", "(let* ((t1 (spawn-native-thread (lambda () 'a)))) (set! g 1) (set! g 2) (list (thread-join! t1) g))", {enc_list([sym("a"), i(2)])}, 2))
@@ -122,6 +129,53 @@ def work_sub(item):
     return (di, ci, tot)
 
 
+# ------------------------------------------------------------------ (b) a stop request against every long-running code path
+# Under the controlled scheduler a thread that passes no gates runs atomically, so code that never reaches a safepoint cannot be seen
+# there.  This part runs free: a spawned thread executes the endless variant of every C17 program shape (after the bounded variant has
+# been run so that hot code is compiled natively); 30 ms later the engine thread assigns a global (a stop-the-world operation): the
+# assignment must complete although the other thread never finishes.  Finite grid: shape x {native code on, off} x placement of the
+# definitions {separate unit, same unit as the first call, required module}.
+def stop_vs_path_steps(shape, unit):
+    from . import c17
+    name, defs, warm, endless = shape
+    if unit == "same-unit":
+        steps = [defs + " " + warm, "'done"]
+    elif unit == "module":
+        steps = ["(require \"%s\")" % c17.module_file(shape), warm]
+    else:
+        steps = [defs, warm]
+    steps.append("(define vf-g 0)")
+    steps.append("(let ((t (spawn-native-thread (lambda () %s)))) (time/sleep-ms 30) (vf-mark 1) (set! vf-g 1) (vf-mark 2) (#%%gc-collect) (vf-mark 3) (thread-interrupt t) "
+                 "(with-handler (lambda (e) 'stopped) (thread-join! t)) (list vf-g))" % endless)
+    return steps
+
+
+def work_stop_vs_path(item):
+    from . import c17
+    si, ci, unit = item
+    shape = c17.SHAPES[si]
+    r = common.run_cases([{"id": 0, "steps": stop_vs_path_steps(shape, unit)}], env=CONFIGS[ci][1], batch=1, timeout_ms=5000)[0]
+    name = "%s/%s%s" % (shape[0], CONFIGS[ci][0], "" if unit == "separate" else "/" + unit)
+    if r["exit"] == "normal":
+        st = r["steps"]
+        if st[0]["s"] != "ok" or st[1]["s"] != "ok" or not st[1]["v"] or st[1]["v"][-1] != '(sym "done")':
+            return (name, "not-applicable", "")
+        last = st[-1]
+        if last["s"] == "ok" and last["v"][-1] == "(lst (i 1))":
+            return (name, "ok", "")
+        return (name, "error", (last.get("m") or str(last.get("v")))[:120])
+    lm = str(r.get("last_mark"))
+    if r["exit"] == "timeout":
+        if lm == "1":
+            return (name, "stop-blocked", "assigning a global never completed while the other thread was running this code")
+        if lm == "2":
+            return (name, "collection-blocked", "a full collection never completed while the other thread was running this code")
+        if lm == "3":
+            return (name, "ok-but-uninterruptible", "")  # the thread cannot be interrupted: C17's subject
+        return (name, "not-applicable", "timeout before the experiment (mark %s)" % lm)
+    return (name, "crash", "engine exit %s" % r["exit"])
+
+
 def main(argv=None):
     a = common.parse_args(argv)
     if a.replay:
@@ -167,10 +221,25 @@ def main(argv=None):
             n = sum(1 for f in d["failures"] if f[1] == cls)
             rep.violation("%s :: %s :: %s" % (cls, name, detail[:160]), {"driver": name, "program": D[di][1], "class": cls, "detail": detail, "schedules_failing": n, "schedules_explored": d["runs"], "choice_prefix": prefix},
                           {"case": {"steps": [PRE, {"op": "sched_arm", "choices": prefix, "report_path": "/dev/null"}, D[di][1], {"op": "sched_report"}]}, "env": CONFIGS[ci][1]})
+    from . import c17
+    import shutil
+    shutil.rmtree(c17.MODDIR, ignore_errors=True)
+    for sh in c17.SHAPES:
+        c17.module_file(sh)
+    pitems = [(si, ci, unit) for si in range(len(c17.SHAPES)) for ci in range(len(CONFIGS)) for unit in ("separate", "same-unit", "module")]
+    pres = common.pmap(work_stop_vs_path, pitems)
+    pcount = {}
+    for (si, ci, unit), (name, cls, detail) in zip(pitems, pres):
+        pcount[cls] = pcount.get(cls, 0) + 1
+        if cls in ("stop-blocked", "collection-blocked", "error", "crash"):
+            rep.violation("%s :: %s :: %s" % (cls, name, detail), {"path": name, "class": cls, "detail": detail},
+                          {"case": {"steps": stop_vs_path_steps(c17.SHAPES[si], unit)}, "env": CONFIGS[ci][1], "timeout_ms": 5000})
+    total += len(pitems)
     cov = {"evaluations": total, "distinct_nontrivial": total,
            "rule": "every schedule with at most 2 preemptions (three-thread drivers: 1; thorough: 3 and 2) of %d drivers x {native code on, off (quick: every second driver)}; a scheduling point "
-                   "is every gate of hook H7 reached by the running thread; each schedule re-executes the driver on a freshly forked engine" % len(D),
-           "samples": [D[0][1], D[7][1][:200]], "exhaustive": not any(t["capped"] for t in table.values()), "drivers": table}
+                   "is every gate of hook H7 reached by the running thread; each schedule re-executes the driver on a freshly forked engine; plus (free-running) a stop request against every "
+                   "long-running code path: 37 program shapes x {native code on, off} x {separate unit, same unit, module}" % len(D),
+           "samples": [D[0][1], D[7][1][:200]], "exhaustive": not any(t["capped"] for t in table.values()), "drivers": table, "stop_request_vs_code_path": pcount}
     return rep.finish("model_checking", cov, assumptions=["interleavings are sequentially consistent at gate granularity", "a thread whose kernel state is 'sleeping' for 5 consecutive 1 ms polls is blocked in native code",
                                                            "progress is judged by wall-clock limits (1.5 s without a runnable thread = deadlock, 1.5 s of only spinning threads = livelock)"])
 
